@@ -87,7 +87,7 @@ def gen_case(rnd, idx=None):
         # 128K tapes need --7ffd, --clear and --begin; the bank loader (38 bytes + table) sits at CLEAR+1 or --loader
         clear = org - 64 - rnd.randrange(0, 100)
         opts += ['-c', str(clear)]
-        want7ffd = rnd.choice((0, 1, 3, 4, 6, 7, 16, 17, 23, 8))
+        want7ffd = rnd.choice((0, 1, 3, 4, 6, 7, 16, 17, 23, 8, 32, 48, 55, 59, 39))        # incl. bit 5 (paging lock) and bit 3 (screen)
         opts += ['--7ffd', str(want7ffd)]
         if rnd.random() < 0.6:
             banks = rnd.sample((0, 1, 3, 4, 6, 7), rnd.randrange(1, 5))        # in any order on the command line
